@@ -24,6 +24,7 @@ type lockStep struct {
 	A           string            `json:"a"`
 	U           string            `json:"u"`
 	P           string            `json:"p"`
+	Ps          []string          `json:"ps"` // lockmany / unlockmany: the paths in the order given
 	OK          bool              `json:"ok"`
 	Force       bool              `json:"force"`
 	ByID        bool              `json:"byid"`
@@ -177,6 +178,21 @@ func replayLocking(c *core.Ctx, lfsBin string, b *behaviour, idx int) (*core.Vio
 				args = append(args, file)
 			}
 			r = run(d, "git-lfs", args...)
+		case "lockmany":
+			args := []string{"lock"}
+			for _, q := range s.Ps {
+				args = append(args, q+".bin")
+			}
+			r = run(d, "git-lfs", args...)
+		case "unlockmany":
+			args := []string{"unlock"}
+			if s.Force {
+				args = append(args, "--force")
+			}
+			for _, q := range s.Ps {
+				args = append(args, q+".bin")
+			}
+			r = run(d, "git-lfs", args...)
 		case "verify":
 			r = run(d, "git-lfs", "locks", "--verify")
 		case "hook":
@@ -197,7 +213,7 @@ func replayLocking(c *core.Ctx, lfsBin string, b *behaviour, idx int) (*core.Vio
 			}
 			r = run(d, "git", "push", "origin", "main")
 		}
-		cmds = append(cmds, fmt.Sprintf("%s: %s %s force=%v byid=%v -> exit %d", s.U, s.A, s.P, s.Force, s.ByID, r.Code))
+		cmds = append(cmds, fmt.Sprintf("%s: %s %s%s force=%v byid=%v -> exit %d", s.U, s.A, s.P, strings.Join(s.Ps, " "), s.Force, s.ByID, r.Code))
 		cache, err := cacheOf(s.U)
 		if err != nil {
 			return nil, err
@@ -215,14 +231,14 @@ func replayLocking(c *core.Ctx, lfsBin string, b *behaviour, idx int) (*core.Vio
 		// the server's table is the ground truth of who holds what
 		for _, p := range paths {
 			if table[p] != s.ServerAfter[p] {
-				if s.A == "unlock" && !s.Force && s.ServerAfter[p] != "none" && table[p] == "none" {
+				if (s.A == "unlock" || s.A == "unlockmany") && !s.Force && s.ServerAfter[p] != "none" && table[p] == "none" {
 					return mk("unlock-without-force-keeps-lock-of-modified-file", "a lock was released although the file has uncommitted changes (or is not the user's) and --force was not given"), nil
 				}
 				return mk("lock-table-as-specified", fmt.Sprintf("server says %s is held by %s, the specification says %s", p, table[p], s.ServerAfter[p])), nil
 			}
 		}
 		switch s.A {
-		case "lock", "unlock":
+		case "lock", "unlock", "lockmany", "unlockmany":
 			if s.OK != (r.Code == 0) {
 				return mk("command-verdict", fmt.Sprintf("specification says ok=%v, exit code %d", s.OK, r.Code)), nil
 			}
@@ -305,7 +321,7 @@ func init() {
 		c.Set("transitions", r.Generated)
 		actionsSeen = map[string]int{}
 		bs, total, nclasses := sampleLockBehaviours(c, r.OutFile, budget)
-		requireActions(c, "lock", "unlock", "verify", "hook", "edit", "push")
+		requireActions(c, "lock", "unlock", "lockmany", "unlockmany", "verify", "hook", "edit", "push")
 		c.Set("edges_emitted", total)
 		c.Set("behaviour_classes", nclasses)
 		c.Logf("replaying %d of %d behaviours", len(bs), total)
@@ -313,7 +329,7 @@ func init() {
 		c.Set("traces_validated_against_impl", len(bs))
 		c.Set("evaluations", len(bs))
 		c.Set("distinct_nontrivial", len(bs))
-		c.Set("rule", "behaviours = per-edge output of spec/Locking.tla: sequences of <= MaxOps commands of two users over two lockable paths against a server that pages lock lists by {0 (never), 1} (lock, unlock by path / by id with and without --force, locks --verify, hook run, edit, final commit+push with lock verification); sampled round-robin over classes (sequence of action kinds with flags and verdicts)")
+		c.Set("rule", "behaviours = per-edge output of spec/Locking.tla: sequences of <= MaxOps commands of two users over two lockable paths against a server that pages lock lists by {0 (never), 1} (lock, unlock by path / by id with and without --force, lock and unlock of two paths in one command, locks --verify, hook run, edit, final commit+push with lock verification); sampled round-robin over classes (sequence of action kinds with flags and verdicts)")
 		for i := 0; i < len(bs); i += len(bs)/4 + 1 {
 			c.Sample(json.RawMessage(bs[i].raw))
 		}
